@@ -266,3 +266,16 @@ Proof.
       destruct (String.eqb FM (fst ac)); lia. }
     unfold init_bank in Hb. specialize (G _ _ _ Hb). cbn in G. lia.
 Qed.
+
+(* C06 over all histories: no farm's recorded payouts ever exceed what it was funded with *)
+Theorem reachable_claimed_bounded g w0 ops f :
+  genesis_world g = Ok w0 -> 0 <= amount_of (fm_create_fee (g_fm g)) -> Forall op_ok ops ->
+  In f (fm_farms (w_fm (run w0 ops))) -> 0 <= f_claimed f <= amount_of (f_asset f).
+Proof.
+  intros Hg Hfee Hops Hin.
+  pose proof (run_custody ops w0 Hops (genesis_custody _ _ Hg Hfee)) as [[(_ & _ & Hc & _) _] _].
+  apply Hc. exact Hin.
+Qed.
+
+(* ... and every recorded position and farm remains backed while they do (C05), so a payout never draws on another
+   farm's or a position's funds: for every denom, balance >= positions + unclaimed budgets *)
